@@ -342,9 +342,21 @@ package builder
 //@   must-call builder.writelnf [ic-emitted C01] if ch != nil then f == "\tignoreCase: %t,"
 //@   must-call builder.writelnf [inverted-emitted C01] if ch != nil then f == "\tinverted: %t,"
 //@   before BasicLatinLookup assert [table-of-this-class C15] chars == ch.Chars && ranges == ch.Ranges && unicodeClasses == ch.UnicodeClasses && ignoreCase == ch.IgnoreCase
-//@   loop#1 invariant [ctx] b != nil && ch != nil
-//@   loop#2 invariant [ctx] b != nil && ch != nil
-//@   loop#3 invariant [ctx] b != nil && ch != nil
+// every member (char, range bound, class name) is written, whatever the flags: the general matching path of the
+// runtime reads these lists also when the Basic Latin table is present (non-ASCII input that folds into ASCII)
+//@   at "if len(ch.Chars) > 0 {" ghost nChars = 0
+//@   at "if len(ch.Ranges) > 0 {" ghost nRanges = 0
+//@   at "if len(ch.UnicodeClasses) > 0 {" ghost nClasses = 0
+//@   at "b.writef(\"%q,\", unicode.ToLower(rn))"#1 ghost nChars = nChars + 1
+//@   at "b.writef(\"%q,\", rn)"#1 ghost nChars = nChars + 1
+//@   at "b.writef(\"%q,\", unicode.ToLower(rn))"#2 ghost nRanges = nRanges + 1
+//@   at "b.writef(\"%q,\", rn)"#2 ghost nRanges = nRanges + 1
+//@   at "b.writef(\"rangeTable(%q),\", cl)" ghost nClasses = nClasses + 1
+//@   loop#1 invariant [all-chars C15 C01] b != nil && ch != nil && nChars == idx1
+//@   loop#2 invariant [all-ranges C15 C01] b != nil && ch != nil && nRanges == idx2
+//@   loop#3 invariant [all-classes C15 C01 C04] b != nil && ch != nil && nClasses == idx3
+//@   all-calls builder.writef [member-value C15 C01] f == "%q," ==> len(args) == 1 && exists k int :: (0 <= k && k < len(ch.Chars) && as(args[0], "rune") == ite(ch.IgnoreCase, toLower(ch.Chars[k]), ch.Chars[k])) || (0 <= k && k < len(ch.Ranges) && as(args[0], "rune") == ite(ch.IgnoreCase, toLower(ch.Ranges[k]), ch.Ranges[k]))
+//@   all-calls builder.writef [class-value C15 C04] f == "rangeTable(%q)," ==> len(args) == 1 && exists k int :: 0 <= k && k < len(ch.UnicodeClasses) && as(args[0], "string") == ch.UnicodeClasses[k]
 //@   safety C13
 //@ spec func lowerS(s string) string
 //@ spec func quoteS(s string) string
